@@ -506,6 +506,11 @@ func (c *Collection) CreateIndex(name string, config IndexConfig) (string, error
 		}
 	}
 
+	// check name conflict
+	if _, ok := c.Indexes[name]; ok {
+		return "", fmt.Errorf("existing index %q has a different configuration", name)
+	}
+
 	// create index
 	index, err := CreateIndex(config)
 	if err != nil {
@@ -534,6 +539,11 @@ func (c *Collection) DropIndex(name string) ([]string, error) {
 
 	// drop single index
 	if name != "" {
+		// the default index cannot be dropped
+		if name == "_id_" {
+			return nil, fmt.Errorf("cannot drop the _id index")
+		}
+
 		// check existence
 		if _, ok := c.Indexes[name]; !ok {
 			return nil, fmt.Errorf("missing index %q", name)
